@@ -97,4 +97,29 @@ def mon18s : Monitor G18s where
         "C18: a call that is neither a launch report nor an initialisation changed the booting record (the running patch)")]
     else []
 
+/-! #### C10, the end of the guarantee: the renewed offer
+
+  `mon10` follows a rolled-back number "until the server offers n for installation again". This
+  monitor (same ghost state) says what that offer meets: an update whose well-formed response
+  offers a number that is rolled back - earlier, or by this very response - is never answered
+  "no update" (the answer for a patch taken to be installed already). -/
+
+def mon10s : Monitor G10 where
+  init := {}
+  next _ g op pre post := g.next op pre post
+  checks _ g op pre post :=
+    match op, g.cfg, post.ret with
+    | .update _ sc, some _, .upd out =>
+      (match sc.resp with
+       | some r =>
+         (match r.patch with
+          | some o =>
+            if r.available && !(resetsState g.cfg op pre) && (r.rolledBack.getD [] ++ g.rolled).contains o.number then
+              [(decide (out ≠ .noUpdate),
+                s!"C10: rolled-back patch {o.number} is offered again and the update answers 'no update' (taken for installed)")]
+            else []
+          | none => [])
+       | none => [])
+    | _, _, _ => []
+
 end Updater
